@@ -231,4 +231,36 @@ def radix_text_ok(text, radix, x):
         return False
     if len(text) > 1200:
         return False
+    # "shortest round-tripping digits" (property text), with slack: the fraction carries at most
+    # SURPLUS_DIGITS more digits than the fewest that still read back as x
+    _, dot, fp = text.partition(".")
+    if dot and len(fp) > SURPLUS_DIGITS:
+        if len(fp) > min_fraction_digits(x, radix) + SURPLUS_DIGITS:
+            return False
     return True
+
+
+SURPLUS_DIGITS = 3
+
+
+def min_fraction_digits(x, radix):
+    """Fewest radix-`radix` fraction digits k such that some numeral with k fraction digits lies within half an
+    ulp of x (so that it reads back as x).  Monotone in k, found by bisection."""
+    fx = abs(Fraction(x))
+    half = ulp(x) / 2
+
+    def enough(k):
+        scale = radix ** k
+        m = round(fx * scale)
+        return abs(Fraction(m, scale) - fx) <= half
+
+    lo, hi = 0, 1200
+    if enough(0):
+        return 0
+    while hi - lo > 1:
+        mid = (lo + hi) // 2
+        if enough(mid):
+            hi = mid
+        else:
+            lo = mid
+    return hi
